@@ -1267,13 +1267,16 @@ func valueFromIndex(info *mapper.Info, columnKeys []model.ColumnKey) (interface{
 			if err != nil {
 				return "", err
 			}
-			// if object is nil dont try to encode it
+			// an unset optional is a component of the value in its own
+			// right: leaving it out would make (nil, a) and (a, nil) one
+			// value. Encode whether the component is set, then the
+			// component.
 			value := reflect.ValueOf(val)
-			if value.Kind() == reflect.Invalid {
-				continue
+			isSet := value.Kind() != reflect.Invalid && !(value.Kind() == reflect.Pointer && value.IsNil())
+			if err = enc.Encode(isSet); err != nil {
+				return "", err
 			}
-			// if object is a nil pointer dont try to encode it
-			if value.Kind() == reflect.Pointer && value.IsNil() {
+			if !isSet {
 				continue
 			}
 			err = enc.Encode(val)
